@@ -358,3 +358,32 @@ func splitFiles(t *rapid.T, e *Env, p *core.Program) (*core.Program, bool) {
 	}
 	return next, true
 }
+
+// DrawFamilyProgram renders 2-5 kernels of one checker family into a package that is split over
+// several files whenever possible: histories and pools built from it make one checker meet its own
+// subject again and again, in different files and packages.
+func DrawFamilyProgram(t *rapid.T, e *Env, checker string, onReject func(label, why string)) (*core.Program, *ProgCase) {
+	family := KernelsFor(checker)
+	if len(family) == 0 {
+		return nil, nil
+	}
+	n := rapid.IntRange(2, 5).Draw(t, "familyKernels")
+	ks := make([]Kernel, 0, n)
+	for i := 0; i < n; i++ {
+		ks = append(ks, family[rapid.IntRange(0, len(family)-1).Draw(t, "familyKernel")])
+	}
+	p := e.Load(KernelFileFor(t, ks, false))
+	if !p.OK() {
+		if onReject != nil {
+			onReject("family-kernels", p.ErrSummary())
+		}
+		return nil, nil
+	}
+	pc := &ProgCase{Origin: "kernels", Muts: []string{"family:" + checker}}
+	if next, ok := splitFiles(t, e, p); ok {
+		p = next
+		pc.Muts = append(pc.Muts, "split-files")
+	}
+	pc.Files = Sources(p)
+	return p, pc
+}
